@@ -84,6 +84,13 @@ def instances(tier: str) -> list[dict]:
         lists = [(pf[1], pf[6]), (pf[6], "*zz_nomatch"), ("*zz_nomatch", pf[1]), (pf[2], pf[7], pf[11])] if len(pf) > 11 else [(pf[1], "*zz_nomatch")]
         for pl in lists[: (3 if tier == "quick" else 4)]:
             out.append({"part": "partial-list", "tree": tree, "naming": naming, "pms": list(pl), "other": others[0]})
+        # lists in which every module matched by one name is also matched by another name of the list (in both
+        # orders): each name still matches something, so the rule has the verdict of the union, never a no-match error
+        leaf = [n for n in nodes if "." in n][0]
+        last = leaf.split(".")[-1]
+        overl = [("*", leaf), (leaf, "*"), (nodes[0] + "*", "*" + last), ("*" + last, nodes[0] + "*"), ("*" + last + "*", leaf, "*." + last)]
+        for pl in overl[: (4 if tier == "quick" else 5)]:
+            out.append({"part": "partial-list", "tree": tree, "naming": naming, "pms": list(pl), "other": others[-1]})
         # batches incl. related modules
         cands = nodes if tier == "thorough" else [n for n in nodes if "." in n]
         for k in (2, 3):
@@ -106,8 +113,48 @@ def instances(tier: str) -> list[dict]:
     for rx in (r"p\.(a|b)$", r"p\.[ab]", r".*\.c"):
         for verb in ("should_not", "should_only"):
             out.append({"part": "sequence", "tree": "-", "naming": "-", "rx": rx, "verb": verb})
+    out.extend(big_instances(tier))
     for i in out:
         i["cap"] = CAPS[tier]
+    return out
+
+
+def big_instances(tier: str) -> list[dict]:
+    """Seeded larger universes: random forests of 8-12 modules (names mixing neutral and prefix-sibling components),
+    a concrete random import relation with a window of 10-11 symbolic pairs around the modules involved; a regex /
+    partial name / batch drawn from the universe's own names (batches of 2-3 incl. related modules)."""
+    import random
+
+    from vf.universes import random_forest, random_window, related
+
+    rnd = random.Random(runner.seed() * 1000003 + 11)
+    out = []
+    n_inst = 60 if tier == "quick" else 900
+    while len(out) < n_inst:
+        nodes = random_forest(rnd, rnd.choice((8, 9, 10, 12)), max_depth=rnd.choice((3, 4)), roots=rnd.choice((1, 2, 3)))
+        kind = rnd.choice(("regex", "regex", "partial", "batch-subjects", "batch-objects"))
+        inst = {"tree": f"R{len(nodes)}#{len(out)}", "naming": "mixed", "nodes": nodes}
+        if kind == "regex":
+            rx = rnd.choice(regex_family(nodes)[:-4])
+            matched = [n for n in nodes if re.match(rx, n)]
+            others = [n for n in nodes if not any(related(n, m) for m in matched)] or nodes
+            inst.update({"part": "regex", "rx": rx, "other": rnd.choice(others)})
+            focus = matched[:3] + [inst["other"]]
+        elif kind == "partial":
+            pm = rnd.choice(partial_family(nodes)[:-2])
+            inst.update({"part": "partial", "pm": pm, "other": rnd.choice(nodes)})
+            focus = [inst["other"]]
+        elif kind == "batch-subjects":
+            S = rnd.sample(nodes, rnd.choice((2, 3)))
+            inst.update({"part": "batch-subjects", "sk": rnd.choice(("named", "sub")), "S": sorted(S), "ok": "named", "O": [rnd.choice(nodes)]})
+            focus = S + inst["O"]
+        else:
+            O = rnd.sample(nodes, rnd.choice((2, 3)))
+            inst.update({"part": "batch-objects", "sk": "named", "S": [rnd.choice(nodes)], "ok": rnd.choice(("named", "sub")), "O": sorted(O)})
+            focus = O + inst["S"]
+        win, bg = random_window(rnd, nodes, rnd.choice((10, 11)), density=rnd.choice((0.03, 0.1, 0.2)), focus=focus)
+        inst.update({"window": [list(p) for p in win], "background": [list(p) for p in bg]})
+        out.append(inst)
     return out
 
 
@@ -171,10 +218,13 @@ def work(inst: dict) -> dict:
     warnings.showwarning = lambda *a, **k: None
     if inst["part"] == "sequence":
         return work_sequence(inst)
-    nodes = concrete(inst["tree"], inst["naming"])
+    nodes = inst["nodes"] if "nodes" in inst else concrete(inst["tree"], inst["naming"])
     label = label_of(inst)
     before = solver().stats()
-    lab = RuleLab(nodes, inst["cap"], with_message=False)
+    if "window" in inst:
+        lab = RuleLab(nodes, inst["cap"], with_message=False, window=[tuple(p) for p in inst["window"]], background=[tuple(p) for p in inst["background"]])
+    else:
+        lab = RuleLab(nodes, inst["cap"], with_message=False)
     arch = lab.arch
     res = {"label": label, "violations": [], "errors": [], "replays": 0}
     checked = 0
@@ -358,7 +408,8 @@ def run(tier: str, only: str | None = None) -> int:
     if only:
         items = [i for i in items if only in label_of(i)]
     rep.bounds = {
-        "trees": sorted({i["tree"] for i in items}),
+        "trees": sorted({i["tree"].split("#")[0] for i in items}),
+        "seeded_larger_universes": f"{sum(1 for i in items if 'window' in i)} random forests of 8-12 modules, concrete background relation, 10-11 symbolic pairs each (VERIF_SEED)",
         "namings": sorted({i["naming"] for i in items}),
         "path_cap_per_summary": CAPS[tier],
         "regex_family": "anchored names, prefixes, last-char classes, two-name alternations (parenthesised, and top-level with a bare component as an alternative), depth and root patterns, two never-matching patterns; on subject or object side; all 12 shapes",
